@@ -17,6 +17,8 @@ ASSUMPTIONS = ["the probes cover the generators exported from urandom::rng at th
 GENS = {
     "ChaCha8": ("urandom::rng::ChaCha8", True), "ChaCha12": ("urandom::rng::ChaCha12", True), "ChaCha20": ("urandom::rng::ChaCha20", True),
     "ChaCha<20>": ("urandom::rng::ChaCha<20>", True),
+    # round counts nobody vetted (0 rounds = the key in the clear): the type exists, the marker must not
+    "ChaCha<0>": ("urandom::rng::ChaCha<0>", False), "ChaCha<1>": ("urandom::rng::ChaCha<1>", False), "ChaCha<7>": ("urandom::rng::ChaCha<7>", False), "ChaCha<19>": ("urandom::rng::ChaCha<19>", False),
     "System<31>": ("urandom::rng::System<31>", True), "System<1>": ("urandom::rng::System<1>", True),
     "Xoshiro256": ("urandom::rng::Xoshiro256", False), "SplitMix64": ("urandom::rng::SplitMix64", False), "Wyrand": ("urandom::rng::Wyrand", False),
     "Mock": ("urandom::rng::Mock<std::iter::Repeat<u64>>", False), "Read": ("urandom::rng::Read<&'static [u8]>", False),
